@@ -27,6 +27,7 @@ import sys
 sys.path.insert(0, os.path.dirname(os.path.abspath(__file__)))
 import rtok
 import items as itm
+import fmt as vfmt
 
 
 class Undecided(Exception):
@@ -598,7 +599,24 @@ def build_unit(unit_path, repo_root, out_path):
             res = SectionResult()
             em.write('use vstd::prelude::*;\nverus! {\n')
             first = em.line
-            generate_section(sec, repo_root, em, res)
+            sub = Emitter()
+            sub.line = em.line
+            generate_section(sec, repo_root, sub, res)
+            text = ''.join(sub.parts)
+            if 'format' in text:
+                tag = re.sub(r'[^A-Za-z0-9]', '_', sec.mod.split('::')[-1])
+                text, helpers, recs = vfmt.rewrite_format(text, 0, tag)
+                for rc in recs:
+                    res.rewrites.append({'file': sec.path, 'mirror': os.path.basename(sec.mirror_file), 'name': rc['name'],
+                                         'kind': 'T3', 'original': rc['original'], 'replacement': rc['replacement']})
+            else:
+                helpers = ''
+            em.write(text)
+            if helpers:
+                em.write('\n// ---- T3: generated format! helpers (bodies not verified; contract = meaning of format! for plain placeholders)\n')
+                h0 = em.line
+                em.write(helpers)
+                res.extra_ranges.append((h0, em.line, None))
             em.write('\nproof fn __vx_canary() ensures false {}\n')
             canary_line = em.line - 1
             em.write('} // verus!\n')
